@@ -63,7 +63,7 @@ def entry(pid, c):
     }
 m = {
  "version": 1,
- "setup_cmd": "cd /verif/sim && CARGO_NET_OFFLINE=true cargo build --release --offline && cd /verif/sim-miri && (CARGO_NET_OFFLINE=true cargo +nightly miri setup >/dev/null 2>&1 || true)",
+ "setup_cmd": "cd /verif/sim && CARGO_NET_OFFLINE=true cargo build --release --offline && CARGO_NET_OFFLINE=true cargo build --profile shipped --offline && cd /verif/sim-miri && (CARGO_NET_OFFLINE=true cargo +nightly miri setup >/dev/null 2>&1 || true)",
  "hooks": {"guard": "ta_verif_sim",
            "enable": "no hook exists in /repo: every seam is an existing public interface (Next/Reset/Clone/serde) or lives in the harness process; the guard name is reserved only",
            "baseline_off_cmd": "cd /repo && cargo test --workspace --no-fail-fast --offline",
